@@ -145,7 +145,7 @@ fn run_case(line: &str) -> String {
         }
     }
     match op {
-        "egcd" => {
+        "egcd" if nums.len() == 3 => {
             let (a, b, c) = (nums[0] as i64, nums[1] as i64, nums[2] as i64);
             match catch(|| egcd(a, b, c)) {
                 Err(e) => out1(&e),
@@ -156,7 +156,7 @@ fn run_case(line: &str) -> String {
                 }
             }
         }
-        "crt" => {
+        "crt" if nums.len() == 4 => {
             let (a1, m1, a2, m2) = (nums[0] as i64, nums[1] as i64, nums[2] as i64, nums[3] as i64);
             match catch(|| crt(a1, m1, a2, m2)) {
                 Err(e) => out1(&e),
@@ -198,6 +198,142 @@ fn operand(rng: &mut SplitMix64, lim: i64) -> i64 {
         -v
     } else {
         v
+    }
+}
+
+fn rand_u128(rng: &mut SplitMix64) -> u128 {
+    ((rng.next_u64() as u128) << 64) | rng.next_u64() as u128
+}
+/// uniform-ish in [lo, hi]
+fn range_u128(rng: &mut SplitMix64, lo: u128, hi: u128) -> u128 {
+    if hi <= lo {
+        return lo;
+    }
+    let span = hi - lo;
+    if span == u128::MAX {
+        return rand_u128(rng);
+    }
+    lo + rand_u128(rng) % (span + 1)
+}
+fn show_signed(neg: bool, mag: u128) -> String {
+    if neg && mag != 0 {
+        format!("-{}", mag)
+    } else {
+        mag.to_string()
+    }
+}
+fn isqrt(n: u128) -> u128 {
+    if n < 2 {
+        return n;
+    }
+    let mut x = (n as f64).sqrt() as u128;
+    while x.checked_mul(x).map_or(true, |v| v > n) {
+        x -= 1;
+    }
+    while (x + 1).checked_mul(x + 1).map_or(false, |v| v <= n) {
+        x += 1;
+    }
+    x
+}
+
+/// One sampled gcd / lcm case over the WHOLE range of `ty` (signed minimum excluded). Families:
+///  * boundary  — 0, MAX-{0,1,2}, powers of two, small, wide random, shared 16-bit factor;
+///  * upper_half (unsigned types) — at least one operand >= 2^(bits-1): MAX, MAX-1, 2^(bits-1)(+small), the largest
+///    multiple of a small odd number, random upper-half values, against small / equal / upper-half partners
+///    (an `abs` routed through the signed type, or a sign-extending cast, shows up only here);
+///  * lcm_adjacent — a = p*f, b = q*f with p*q*f <= MAX < (p*f)*(q*f): the lcm is representable but the product of
+///    the operands is not (an lcm that multiplies before dividing overflows exactly here).
+fn gcdlcm_sample(rng: &mut SplitMix64, ty: &str, emit: &mut dyn FnMut(String), st: &mut Stats) {
+    let (signed, hi) = ty_info(ty);
+    let bits = ty_bits(ty);
+    let family = rng.below(if signed { 6 } else { 8 });
+    let (ma, mb, fam): (u128, u128, &str) = if family >= 6 {
+        // upper half of an unsigned type
+        let half = 1u128 << (bits - 1);
+        let up = |rng: &mut SplitMix64| -> u128 {
+            match rng.below(6) {
+                0 => hi,
+                1 => hi - 1 - rng.below(3) as u128,
+                2 => half + rng.below(4) as u128,
+                3 => {
+                    let k = [3u128, 5, 7, 15, 17, 255, 257, 65537][rng.below(8) as usize];
+                    let v = hi - hi % k;
+                    if v >= half { v } else { hi }
+                }
+                _ => range_u128(rng, half, hi),
+            }
+        };
+        let a = up(rng);
+        let b = match rng.below(5) {
+            0 => [0u128, 1, 2, 3, 5, 17, 255, 257][rng.below(8) as usize].min(hi),
+            1 => a,
+            2 => up(rng),
+            3 => a / [2u128, 3, 5, 7][rng.below(4) as usize],
+            _ => range_u128(rng, 0, hi),
+        };
+        if rng.chance(1, 2) { (a, b, "upper_half") } else { (b, a, "upper_half") }
+    } else if family >= 4 {
+        // lcm representable, product of the operands not
+        let p = rng.range_i64(1, 15) as u128;
+        let q = rng.range_i64(1, 15) as u128;
+        let top = hi / (p * q); // largest f with p*q*f <= hi
+        let low = isqrt(hi / (p * q)) + 1; // smallest f with p*q*f*f > hi
+        if top >= low && top >= 1 {
+            let f = match rng.below(3) {
+                0 => top - rng.below(3).min((top - low) as u64) as u128,
+                1 => low + rng.below(3).min((top - low) as u64) as u128,
+                _ => range_u128(rng, low, top),
+            };
+            (p * f, q * f, "lcm_adjacent")
+        } else {
+            (hi, hi, "lcm_adjacent")
+        }
+    } else {
+        let draw = |rng: &mut SplitMix64| -> u128 {
+            let mag: u128 = match rng.below(7) {
+                0 => 0,
+                1 => hi - rng.below(3) as u128,
+                2 => 1u128 << rng.below(bits as u64),
+                3 => (rng.next_u64() % 1000) as u128,
+                4 => (rng.next_u64() as u128) << rng.below(64),
+                5 => rand_u128(rng) >> rng.below(128),
+                _ => rng.next_u64() as u128,
+            };
+            mag.min(hi)
+        };
+        let (mut a, mut b) = (draw(rng), draw(rng));
+        if rng.chance(1, 3) {
+            let f = (rng.below(1 << 16) as u128).max(1);
+            a = a / f * f;
+            b = b / f * f;
+        }
+        (a, b, "boundary")
+    };
+    let (na, nb) = (signed && rng.chance(1, 2), signed && rng.chance(1, 2));
+    let op = if fam == "lcm_adjacent" {
+        if rng.chance(4, 5) { "lcm" } else { "gcd" }
+    } else if rng.chance(1, 2) {
+        "gcd"
+    } else {
+        "lcm"
+    };
+    emit(format!("{}:{} {} {}", op, ty, show_signed(na, ma), show_signed(nb, mb)));
+    st.bump(&format!("{}_sampled_{}", op, ty));
+    st.bump(&format!("gcdlcm_family_{}", fam));
+    // what the case actually exercises (measured, not assumed)
+    if !signed && (ma >> (bits - 1) != 0 || mb >> (bits - 1) != 0) {
+        st.bump(&format!("operand_in_upper_half_{}", ty));
+    }
+    if bits == 128 && (ma >> 100 != 0 || mb >> 100 != 0) {
+        st.bump(&format!("operand_above_2^100_{}", ty));
+    }
+    if op == "lcm" && ma != 0 && mb != 0 {
+        let g = gcd_u128(ma, mb);
+        let fits = (ma / g).checked_mul(mb).map_or(false, |l| l <= hi);
+        let prod_overflows = ma.checked_mul(mb).map_or(true, |v| v > hi);
+        if fits && prod_overflows {
+            st.bump(&format!("lcm_fits_but_product_overflows_{}", ty));
+        }
     }
 }
 
@@ -294,31 +430,7 @@ fn gen(args: &Args, emit: &mut dyn FnMut(String), st: &mut Stats) {
             }
             _ => {
                 let ty = *rng.pick(&TYPES);
-                let (lo, hi) = ty_bounds(ty);
-                // stay off the minimum of signed types; limit magnitudes to 2^62 for 128-bit to keep parsing simple
-                let hi = hi.min(1i128 << 100);
-                let lo = if lo < 0 { (-hi).max(lo + 1) } else { 0 };
-                let draw = |rng: &mut SplitMix64| -> i128 {
-                    let mag: i128 = match rng.below(6) {
-                        0 => 0,
-                        1 => hi - rng.below(3) as i128,
-                        2 => 1i128 << rng.below(100).min(126),
-                        3 => rng.next_u64() as i128 % 1000,
-                        4 => (rng.next_u64() as i128) << rng.below(40),
-                        _ => rng.next_u64() as i128,
-                    };
-                    let mag = mag.clamp(0, hi);
-                    if lo < 0 && rng.chance(1, 2) { -mag } else { mag }
-                };
-                let (mut a, mut b) = (draw(&mut rng), draw(&mut rng));
-                if rng.chance(1, 3) {
-                    let f = (rng.below(1 << 16) as i128).max(1);
-                    a = a / f * f;
-                    b = b / f * f;
-                }
-                let op = if rng.chance(1, 2) { "gcd" } else { "lcm" };
-                emit(format!("{}:{} {} {}", op, ty, a, b));
-                st.bump(&format!("{}_sampled_{}", op, ty));
+                gcdlcm_sample(&mut rng, ty, emit, st);
             }
         }
     }
